@@ -1116,6 +1116,10 @@ def discharge(ob, timeout_ms=20000, seed=0, both=False):
         return _orig_discharge(ob, timeout_ms, seed, both)
     ob2 = E.Obligation(ob.name, ob.kind, pc2, ob.goal, ob.loc, ob.key, ob.info, ob.expect_sat, ob.abstracted)
     note = ' (asked without the quantified heap-typing axioms)'
+    if ob.expect_sat and ob.kind == 'xcheck':
+        # CPython cross-check sample: its model cannot be rebuilt as real objects (no native builder for pooled heaps
+        # yet), so the satisfiability query for the whole path condition is not asked at all
+        return {'status': 'unknown', 'backend': '-', 'time': 0.0, 'detail': 'cross-check sample skipped: pooled heap states are not rebuilt natively'}
     if ob.expect_sat:
         for budget in (timeout_ms, 4 * timeout_ms):
             r = _orig_discharge(ob2, budget, seed, both)
